@@ -161,6 +161,8 @@ def _int_task(t):
     vflag, oflags = t
     acc = sweep.new_acc()
     fam = cli.selected(vflag)[0][1]
+    for f in T.FAMILIES:      # sessions of every version first (see c16.warm_up)
+        dialogue.run_builder(f, True, True, {}, lambda m, f=f: [T.METRICS[f][m][0]])
     for script, desc in interactive_cases(fam, "-a" in oflags):
         acc["n"] += 1
         acc["cmp"] += 1
